@@ -345,6 +345,18 @@ def r3(cx):
                     continue  # the iterator is exhausted
                 if any(f.dominates(x.b, frm) for x in w):
                     continue  # after a wake-up (return / `?` of the resume sequence)
+                if r is not None and r[0] == "discr" and r[1][0] == "call" and "Try>::branch" in r[1][1]:
+                    # the `?` on the result of a helper that was inlined back: the Err it can pass on was made on the resume
+                    # path (every definition of the operand that is not an `Ok(..)` literal lies behind a wake-up)
+                    op = pa.root(f, Call(f, r[1][2]).args[0])
+                    if op[0] == "local":
+                        errdefs = []
+                        for bi, si, kind, payload in f.defs().get(op[1], []):
+                            if kind == "assign" and payload[0] == "agg" and str(payload[1]).endswith("result::Result") and payload[2] == "Ok":
+                                continue
+                            errdefs.append(bi)
+                        if errdefs and all(any(f.dominates(x.b, bi) for x in w) for bi in errdefs):
+                            continue
                 rets = set(f.ret_blocks())
                 if any(not (set(f.reach_from([to], avoid=[x.b])) & rets) for x in w):
                     continue  # into the wake-up: nothing returns from there without having resumed the child
@@ -409,10 +421,16 @@ def r7_review_closes(cx):
                r"^match\(.*Iterator.*next\)=(None|Some)$", r"^match\(.*branch.*\)=Continue$",
                # what the scan tests on each CHILD before it counts it (a failed / skipped / resumable child ends the scan)
                r"^TaskState::is_(error|skip|success|pending)=False$", r"^Task::is_ready=False$", r"is_empty=True$",
-               # an act that is completed from outside (auto-complete off: a subflow act is closed by its sub workflow's return,
-               # C15.R3) is not closed by its children
-               r"^Task::is_auto_complete=True$",
                ]
+    # an act that is completed from outside (auto-complete off: a subflow act is closed by its sub workflow's return, C15.R3)
+    # is not closed by its children - acceptable ONLY IF the wait ends when the act is answered: the Error arm of
+    # Task::update (the one answer after which the act can live on, kept alive by its catch) switches auto-complete back on
+    # before the error is handled. Without that a subflow act whose catch took the sub workflow's error stays running for
+    # ever (seeded change C01-e; my own first version of repair 94bb39d)
+    if _error_arm_ends_the_wait(m, pa):
+        allowed.append(r"^Task::is_auto_complete=True$")
+    else:
+        cx.note("C01.R7: the Error arm of Task::update does not switch auto-complete back on: an `is_auto_complete` guard on a review's completing write is not accepted")
     n = 0
     for q, f in sorted(m.fns.items()):
         if not re.search(r"ActTask for acts::model::\w+::\w+>::review$", q):
@@ -585,3 +603,26 @@ def r9_scan_covers(cx):
                   "`%s`: every terminal state of a child is counted or passed on by the scan (neither for: %s)" % (f.short, uncovered or "none"), f.loc(),
                   **({} if not uncovered else {"consequence": "a child that ended this way is never counted: count == children().len() cannot become true and nothing else wakes the task"}))
     cx.floor("C01.R9", 4)
+
+
+def _error_arm_ends_the_wait(m, pa):
+    from rules.common import event_arm_of
+    f = m.one(r"^%s::update$" % TASK)
+    on = [c for c in f.calls() if c.q.endswith("Task::set_auto_complete") and len(c.args) > 1
+          and pa.root(f, c.args[1])[0] == "const" and pa.root(f, c.args[1])[1].get("int") == "1" and event_arm_of(m, f, c.b) == {"Error"}]
+    errs = [c for c in f.calls() if (c.callee.get("decl") or "").endswith("scheduler::ActTask::error") and event_arm_of(m, f, c.b) == {"Error"}]
+    if not on or not errs:
+        return False
+    # on every path to the error handling either auto-complete is already on or it is switched on
+    for e in errs:
+        ok = False
+        for c in on:
+            if e.b in f.reach_from([c.b]):
+                extra = [g for g in guards_of(m, f, c.b, mode="alias") if not g.neutral and g not in guards_of(m, f, e.b, mode="alias")
+                         and not (g.root[0] == "call" and g.root[1].endswith("Task::is_auto_complete") and g.truth is False)]
+                same = [g for g in extra if not any(g.root == h.root and g.truth == h.truth for h in guards_of(m, f, e.b, mode="alias"))]
+                if not same:
+                    ok = True
+        if not ok:
+            return False
+    return True
